@@ -31,18 +31,18 @@ MUTANTS = [
          old="    stream = BytesIO(data[4:] if is_struct else data[2:])",
          new="    stream = BytesIO(data[2:] if is_struct else data[2:])"),
     # ---- C02 ----
-    dict(id="C02-setbit-andmask", prop="C02", file=PL,
+    dict(id="C02-setbit-ormask", prop="C02", file=PL,
          old="            self._or_mask |= 1 << bit\n            self._and_mask |= 1 << bit\n",
-         new="            self._or_mask |= 1 << bit\n"),
+         new="            self._and_mask |= 1 << bit\n"),
     dict(id="C02-clearbit-andmask", prop="C02", file=PL,
          old="            self._or_mask &= ~(1 << bit)\n            self._and_mask &= ~(1 << bit)\n",
          new="            self._or_mask &= ~(1 << bit)\n"),
     dict(id="C02-dword-bit-mod16", prop="C02", file=PL,
          old="        if self.data_type == \"DWORD\":\n            bit %= 32",
          new="        if self.data_type == \"DWORD\":\n            bit %= 16"),
-    dict(id="C02-writefrag-offset", prop="C02", file=L,
-         old="                offset += len(segment)\n",
-         new="                offset += segment_size\n"),
+    dict(id="C02-writefrag-segment-short", prop="C02", file=L,
+         old="                request.value[i : i + segment_size]\n",
+         new="                request.value[i : i + segment_size - (1 if i else 0)]\n"),
     dict(id="C02-struct-bit-host", prop="C02", file=CT,
          old="                if val:\n                    value[offset] |= 1 << bit",
          new="                if val:\n                    value[offset + 1] |= 1 << bit"),
@@ -89,9 +89,6 @@ MUTANTS = [
          old="            and data_type[\"internal_tags\"][\"DATA\"][\"data_type_name\"] == \"SINT\"\n",
          new=""),
     # ---- C09 ----
-    dict(id="C09-logical-lt-ff", prop="C09", file=DT,
-         old="            if _value <= 0xFF:\n                _value = USINT.encode(_value)",
-         new="            if _value < 0xFF:\n                _value = USINT.encode(_value)"),
     dict(id="C09-logical-pad-inverted", prop="C09", file=DT,
          old="        if padded and (len(_segment) + len(_value)) % 2:",
          new="        if padded and not (len(_segment) + len(_value)) % 2:"),
